@@ -816,6 +816,10 @@ func (w *world) checkHealthy(before, after *obs, e string) []viol {
 // noWhiteBox (VERIF_C18_NO_WHITEBOX=1, diagnostics): rule (c) is not evaluated, to see what the black-box rules find alone.
 var noWhiteBox = os.Getenv("VERIF_C18_NO_WHITEBOX") != ""
 
+// strictWake (VERIF_C18_STRICT_WAKE=1): see the drain epilogue in runOne. Off by default: the behaviour is reported as
+// observation queued_behind_limit_until_next_submission (decision of the lead pending).
+var strictWake = os.Getenv("VERIF_C18_STRICT_WAKE") != ""
+
 // liveness classes: the observation model stays intact, the enumeration goes on next to such an execution.
 func livenessKey(k string) bool {
 	return strings.HasPrefix(k, "stuck/sync/") || strings.HasPrefix(k, "stuck/async/") ||
@@ -1149,6 +1153,20 @@ func runOne(cfg Config, prefix []string, stopAtPrefix bool) *trace {
 				// (observation, not judged: see the note at the healthy-store oracle)
 				t.Obs = append(t.Obs, viol{Key: "queued_behind_limit_until_next_submission/" + callerTag(w.callers[waiting[0]]), At: len(t.Events), What: fmt.Sprintf(
 					"caller(s) %v still queued at the end although every request is answered and slots of max-concurrency-request-limit=%d are free: the answer that frees a slot does not wake the send loop, only a later submission does (the drain's probe call)", waiting, w.cfg.Limit)})
+			}
+			if round == 0 && strictWake {
+				// VERIF_C18_STRICT_WAKE=1: judge the state WITHOUT the help of a later submission. A call without
+				// any deadline that is still queued now stays queued for ever unless somebody else calls the store.
+				for _, i := range waiting {
+					if w.callers[i].variant == vAsync {
+						t.Viol = append(t.Viol, viol{Key: "call-never-returns:healthy-stream/async/queued-behind-limit-without-wake-up", At: -1, What: fmt.Sprintf(
+							"asynchronous caller %d (no deadline) is still queued behind max-concurrency-request-limit=%d although every request is answered and a slot is free; nothing but a further submission to this store wakes the send loop (%s)",
+							i, w.cfg.Limit, w.storeFacts(&o))})
+					}
+				}
+				if len(t.Viol) > 0 {
+					return t
+				}
 			}
 			idx := len(w.callers)
 			w.callers = append(w.callers, &caller{idx: idx, timeout: callerTimeout(idx)})
